@@ -187,6 +187,9 @@ Definition op_ok (S : tree) (o : op) : bool :=
   | Clear _ _ => true
   | Update _ kp kvs =>
       forallb (fun kv => match snd kv with Leaf _ => leaf_in S (kp ++ [fst kv]) | Node _ => false end) kvs
+  | UpdateBoth _ kp kvs kw =>
+      forallb (fun kv => match snd kv with Leaf _ => leaf_in S (kp ++ [fst kv]) | Node _ => false end)
+              (kvs ++ kw)
   | LoadDefaults t | LoadOverrides t | LoadCollection t => level_okb S t
   | LoadShellEnv _ => true
   | View _ _ | EqD _ _ _ | GetM _ _ _ _ => true
@@ -222,6 +225,11 @@ Definition events_of (c : cfg) (o : op) : list event :=
   | Update fl kp kvs =>
       match nav fl (c_cache c) kp with
       | Ok _ => map (fun kv => JSet (kp ++ [fst kv]) (snd kv)) kvs
+      | Err _ => []
+      end
+  | UpdateBoth fl kp kvs kw =>
+      match nav fl (c_cache c) kp with
+      | Ok _ => map (fun kv => JSet (kp ++ [fst kv]) (snd kv)) (kvs ++ kw)
       | Err _ => []
       end
   | _ => []
@@ -532,6 +540,17 @@ Proof.
   - (* GetM *)
     destruct (nav fl (c_cache c) kp) as [d|e] eqn:Hn; simpl.
     + destruct (get k d); simpl; apply Hsame; intros e H; discriminate.
+    + apply Hsame. eapply nav_err_benign; eassumption.
+  - (* UpdateBoth: the mapping, then the keyword arguments *)
+    destruct (nav fl (c_cache c) kp) as [d0|e] eqn:Hn; simpl.
+    + pose proof (nav_clear_upto S c J fl kp d0 HS HG Hn) as Hcu.
+      unfold do_update. destruct (kvs ++ kw) as [|kv kvs'] eqn:Ek.
+      * simpl. apply Hsame. intros e H; discriminate.
+      * rewrite excise_not_blocked by (apply clear_upto_above; assumption).
+        destruct HG as [HL HI HC].
+        destruct (fold_update S kp (kv :: kvs') c J Hok HL HI Hcu) as [HL' HI'].
+        destruct (remerge_good S _ _ ONone HS HL' HI') as [d [Er Hg]].
+        rewrite Er. simpl. split; [exact Hg | intros e H; discriminate].
     + apply Hsame. eapply nav_err_benign; eassumption.
 Qed.
 
